@@ -4,17 +4,21 @@ pub mod c06;
 pub mod c08;
 pub mod c09;
 pub mod c10;
+pub mod c14;
+pub mod c15;
 pub mod c16;
 pub mod c17;
 pub mod c18;
 pub mod c19;
 pub mod matchp;
 pub mod meta;
+pub mod model;
 pub mod cong;
 pub mod script;
 
 pub fn dispatch(args: &Args, rep: &mut Rep) -> bool {
     match args.prop.as_str() {
+        "C03" => model::run(args, rep),
         "C04" | "C05" => matchp::run(args, rep),
         "C06" => c06::run(args, rep),
         "C08" => c08::run(args, rep),
@@ -22,6 +26,8 @@ pub fn dispatch(args: &Args, rep: &mut Rep) -> bool {
         "C10" => c10::run(args, rep),
         "C10red" => cong::run(args, rep, cong::Focus::Both),
         "C11" | "C12" | "C13" => meta::run(args, rep),
+        "C14" => c14::run(args, rep),
+        "C15" => c15::run(args, rep),
         "C16" => c16::run(args, rep),
         "C17" => c17::run(args, rep),
         "C18" => c18::run(args, rep),
